@@ -195,9 +195,10 @@ def _op(g, dataset):
             if g.chance(0.15):
                 op["using_named"] = [g.pick(G)]
         return op
+    DI = ["u", "urn:x-rdflib:default"]  # the default graph addressed by its own IRI instead of the DEFAULT keyword
     if k == "mgmt":
-        return {"op": g.choice(["clear", "drop"]), "g": g.choice(["DEFAULT", "NAMED", "ALL"] + G * 2), "silent": g.chance(0.4)}
-    return {"op": g.choice(["add", "move", "copy"]), "src": g.choice(["DEFAULT"] + G), "dst": g.choice(["DEFAULT"] + G), "silent": g.chance(0.3)}
+        return {"op": g.choice(["clear", "drop"]), "g": g.choice(["DEFAULT", "NAMED", "ALL", DI] + G * 2), "silent": g.chance(0.4)}
+    return {"op": g.choice(["add", "move", "copy"]), "src": g.choice(["DEFAULT", DI] + G), "dst": g.choice(["DEFAULT", DI] + G), "silent": g.chance(0.3)}
 
 
 def generate(seed, tier):
@@ -346,12 +347,12 @@ def execute(trace, ctx):
         alt_fresh.n = alt2_fresh.n = 1000  # labels distinct from the main model's
         for o in ops:
             _probe(ctx, o, view, union and not single)
-            R.apply_op(view, o, union, fresh, single_graph=single)
+            R.apply_op(view, o, union, fresh, single_graph=single, default_iri=defkey if defkey[0] == "u" else None)
             prefixes.append(copy.deepcopy(view))
             if alt is not None:
-                R.apply_op(alt, o, union, alt_fresh, single_graph=single, ignore_using_named=True)
+                R.apply_op(alt, o, union, alt_fresh, single_graph=single, ignore_using_named=True, default_iri=defkey if defkey[0] == "u" else None)
             if alt2 is not None and o not in dwv:
-                R.apply_op(alt2, o, union, alt2_fresh, single_graph=single)
+                R.apply_op(alt2, o, union, alt2_fresh, single_graph=single, default_iri=defkey if defkey[0] == "u" else None)
         store_back(view, defkey)
         if view != before:
             ctx.probe("request-changed-model")
